@@ -541,7 +541,8 @@ class Checker:
             fill[i] += (rc[0][2] - rc[0][0]) * (rc[0][3] - rc[0][1])
             if rc[3] != before[i][3]:
                 res.violation('inherit', self.case(hist), at, before[i][3], rc[3])
-            if before[i][1] and (rc[4] != before[i][4] or not rc[1]):
+            # (the 'release' operation is the caller clearing the flag itself: the cell must be the same, not still flagged)
+            if before[i][1] and (rc[4] != before[i][4] or (not rc[1] and at.get('op') != 'release')):
                 res.violation('fixed-cut', self.case(hist), at, f'fixed cell {list(before[i][0])} unchanged',
                               dict(cell=list(rc[0]), fixed=rc[1]))
         for i, bc in enumerate(before):
